@@ -233,7 +233,8 @@ PROPS = {
     'C19': {
         'id': 'C19', 'area': 'plg',
         'theorems': ['Props.C19_anon_table_injective', 'Props.C19_anon_format_injective', 'Props.C19_anon_capacity_sharp', 'Props.C19_decoders_conservative', 'Props.C19_decoders_keep_timestamp',
-                     'Props.C19_anon_stream_ecu', 'Props.C19_anon_stream_apid', 'Props.C19_anon_stream_ctid', 'Props.C19_anon_stream_bound'],
+                     'Props.C19_anon_stream_ecu', 'Props.C19_anon_stream_apid', 'Props.C19_anon_stream_ctid', 'Props.C19_anon_stream_bound',
+                     'Props.C19_detector_commutes_with_renaming', 'Props.C19_lifecycles_of_renamed_trace'],
         'n_quick': 1500, 'n_thorough': 40000,
     },
     'C15': {
